@@ -833,6 +833,50 @@ func (env *rEnv) call(n *rNode) Value {
 			}
 			return env.fail("no call to external %s on this path", n.Args[0].Text)
 		}
+	case "atomicbool":
+		// atomicbool(x): the value of a sync/atomic.Bool field
+		if sv, ok := env.eval(n.Args[0]).(VStruct); ok && len(sv.F) > 0 {
+			if f, ok := sv.F[len(sv.F)-1].(VSym); ok && f.T.Sort == SInt {
+				return sym(Not(Eq(f.T, IntLit(0))))
+			}
+		}
+		return env.fail("atomicbool: %s is not an atomic.Bool", nodeText(n.Args[0]))
+	case "heldlike":
+		// heldlike("bucket.mutex"): a lock whose name contains the text is held now
+		if n.Args[0].Op == "str" {
+			for _, h := range env.post.locks {
+				if strings.Contains(h, n.Args[0].Text) {
+					return sym(TTrue)
+				}
+			}
+			return sym(TFalse)
+		}
+	case "lockcount":
+		// lockcount("expManager.mutex"): number of acquisitions on this path of locks whose name contains the text
+		if n.Args[0].Op == "str" {
+			c := 0
+			for _, ev := range env.post.trace {
+				if ev.Kind == "lock" && strings.Contains(ev.Text, n.Args[0].Text) {
+					c++
+				}
+			}
+			return sym(IntLit(int64(c)))
+		}
+	case "lockedunder":
+		// lockedunder("inner", "outer"): on this path some lock whose name contains `inner` was acquired while a lock
+		// whose name contains `outer` was held
+		if n.Args[0].Op == "str" && n.Args[1].Op == "str" {
+			for _, ev := range env.post.trace {
+				if ev.Kind == "lock" && strings.Contains(ev.Text, n.Args[0].Text) {
+					for _, h := range ev.Locks {
+						if strings.Contains(h, n.Args[1].Text) {
+							return sym(TTrue)
+						}
+					}
+				}
+			}
+			return sym(TFalse)
+		}
 	case "stmtText":
 		// stmtText(i): the text of the i-th SQL statement issued on this path
 		if idx, ok := constIndex(env.eval(n.Args[0])); ok {
